@@ -85,6 +85,7 @@ func main() {
 	}
 	if *flagOnly == "" || *flagOnly == "e2e" {
 		runE2E(r, cov)
+		runReuseE2E(r, cov)
 	}
 	// Layer S: concurrent use of one scope (CAS creation of instances) under the controlled
 	// scheduler, computed by the sibling binary c20s (flavour schedm: metrics' atomics instrumented).
